@@ -79,6 +79,11 @@ def random_model(rng, tier):
     bones = ["j_kosi", "j_sebo_a", "n_hara"][:rng.randint(0, 3)]
     bts = [[rng.randrange(3) for _ in range(rng.randint(1, 64))] for _ in range(rng.randint(0, 3))]
     m = mdlcases.model(rng, version, lods, materials=["/mt_c0101e0000_top_%s.mtrl" % c for c in "abc"[:nmat]], bones=bones, bone_tables=bts)
+    if rng.random() < 0.3:
+        # terrain shadow tables (background models): opaque records between the attribute offsets and the sub-meshes, and
+        # behind the sub-meshes
+        m["terrain_shadow_meshes"] = [[rng.randrange(1, 256) for _ in range(20)] for _ in range(rng.randint(0, 2))]
+        m["terrain_shadow_submeshes"] = [[rng.randrange(1, 256) for _ in range(12)] for _ in range(rng.randint(1, 3))]
     # shapes: values inside the index range of a mesh of LOD 0 (names only are compared)
     shapes = []
     for si in range(rng.randint(0, 2)):
@@ -113,6 +118,11 @@ def check(run):
     wide = mdlcases.mesh(rng, [(0, 2, 0), (7, 8, 1)], 0, 6000, [0, 1, 2, 5999, 5998, 5462], 1, 0)
     after = mdlcases.mesh(rng, [(0, 2, 0), (3, 14, 0)], 0, 3, [2, 1, 0], 1, 6)
     cases.append(parse_case(n, mdlcases.model(rng, 5, [[wide, after]]), {"wide stream": "6000 vertices x 12 bytes = 72000 (vertex offsets beyond 65535)"})); n += 1
+    # a declaration that uses all 16 element slots (the end marker sits in the 17th): eight usages, each twice (the second
+    # element of a usage is decoded like the first and overwrites it)
+    full = [(0, 2, 0), (1, 8, 0), (2, 5, 0), (3, 14, 0), (4, 14, 0), (6, 8, 0), (7, 8, 0), (4, 13, 1),
+            (0, 14, 1), (1, 8, 1), (2, 5, 1), (3, 2, 1), (7, 8, 2), (6, 8, 2), (4, 3, 2), (0, 3, 2)]
+    cases.append(parse_case(n, mdlcases.model(rng, 5, [[mdlcases.mesh(rng, full, 0, 3, [0, 1, 2], 1, 0)]]), {"full declaration": 16})); n += 1
     fx = open(REPO + "/resources/tests/c0201e0038_top_zeroed.mdl", "rb").read()
     run.notes["fixture_bytes"] = len(fx)
     run.rule = ("every declaration of the bounded family enumerated by TLC (each supported (usage, type) pair alone on each stream, "
